@@ -3,7 +3,7 @@ CONSTANTS
   V = {"i1", "i2", "j1", "l1", "l2"}
   M <- M5
   B = {"b1", "b2"}
-  Kinds = {"apply", "stub", "when"}
+  Kinds = {"apply", "stub", "when", "seq"}
   Args = {7, 8}
   MaxOps = 9
   Ops <- AllHeldOps
